@@ -62,9 +62,12 @@ def define(text, name):
 def consts():
     """name -> (value, provenance).  Values are ints, or lists for tables."""
     out = {}
+    group = ["Base"]
 
     def put(k, v, prov):
-        out[k] = (v, prov)
+        if k in out and out[k][2] != group[0]:
+            raise ExtractError(f"constant name {k} defined by two extraction hooks ({out[k][2]} and {group[0]})")
+        out[k] = (v, prov, group[0])
 
     defs = src("src/core/defs.h")
     maxttl = define(defs, "NNI_MAX_MAX_TTL")
@@ -96,11 +99,13 @@ def consts():
         errs[name.lower()] = int(m.group(1))
     put("errTable", sorted(errs.items()), "include/nng/nng.h enum nng_err")
     for hook in EXTRA:
+        group[0] = GROUP_OF.get(hook, "Misc")
         hook(put)
     return out
 
 
 EXTRA = []  # extraction hooks fn(put), one per vlib/extract_*.py (loaded below)
+GROUP_OF = {}  # hook -> name of the generated Lean file (Generated/<Group>.lean)
 
 
 def _load_hooks():
@@ -111,6 +116,7 @@ def _load_hooks():
         mod = importlib.import_module(f"vlib.{name}")
         if mod.hook not in EXTRA:
             EXTRA.append(mod.hook)
+            GROUP_OF[mod.hook] = name[len("extract_"):].upper().replace("_", "")
 
 
 def lean_value(v):
@@ -141,10 +147,12 @@ def lean_type(v):
     raise TypeError(v)
 
 
-def render(c):
+def render(c, group):
     lines = ["/- GENERATED by vlib/extract.py from /repo's working tree on every run. Do not edit. -/",
              "namespace Nng.Generated", ""]
-    for k, (v, prov) in c.items():
+    for k, (v, prov, g) in c.items():
+        if g != group:
+            continue
         lines.append(f"/-- {prov} -/")
         lines.append(f"def {k} : {lean_type(v)} := {lean_value(v)}")
         lines.append("")
@@ -153,23 +161,39 @@ def render(c):
 
 
 def generate():
-    """Writes Generated/Consts.lean if changed; returns (consts, changed_names)."""
+    """Writes Generated/<Group>.lean (one file per extraction hook, so that a changed constant only
+    invalidates the proofs that depend on it) and the umbrella Generated/Consts.lean, each only if
+    changed; returns (consts, changed_names)."""
     _load_hooks()
     c = consts()
     os.makedirs(GEN, exist_ok=True)
-    path = os.path.join(GEN, "Consts.lean")
-    new = render(c)
-    old = open(path).read() if os.path.exists(path) else ""
+    groups = []
+    for _, (_, _, g) in c.items():
+        if g not in groups:
+            groups.append(g)
     changed = []
-    if old != new:
-        # which names changed?
-        oldvals = dict(re.findall(r"^def (\w+) : [^\n]*? := ([^\n]*)$", old, re.M))
-        for k, (v, _) in c.items():
-            if oldvals.get(k) != lean_value(v):
-                changed.append(k)
-        with open(path, "w") as f:
-            f.write(new)
-    return c, changed
+    for g in groups:
+        path = os.path.join(GEN, f"{g}.lean")
+        new = render(c, g)
+        old = open(path).read() if os.path.exists(path) else ""
+        if old != new:
+            oldvals = dict(re.findall(r"^def (\w+) : [^\n]*? := ([^\n]*)$", old, re.M))
+            for k, (v, _, gg) in c.items():
+                if gg == g and oldvals.get(k) != lean_value(v):
+                    changed.append(k)
+            with open(path, "w") as f:
+                f.write(new)
+    umbrella = "/- GENERATED umbrella: imports every Generated/<Group>.lean. Models import only the groups they use. -/\n" + \
+               "".join(f"import NngModel.Generated.{g}\n" for g in groups)
+    upath = os.path.join(GEN, "Consts.lean")
+    if not os.path.exists(upath) or open(upath).read() != umbrella:
+        open(upath, "w").write(umbrella)
+    return {k: (v, p) for k, (v, p, _) in c.items()}, changed
+
+
+def groups_of_names():
+    _load_hooks()
+    return {k: g for k, (_, _, g) in consts().items()}
 
 
 if __name__ == "__main__":
